@@ -491,6 +491,16 @@ func (s *Session) NewWorker() (*Worker, error) {
 			pkgs = append(pkgs, sp)
 		}
 	}
+	// pure library packages without package state that is not a plain table: interpreted when a change
+	// brings them in (generic helpers of slices/maps/cmp, the non-reflective part of sort, math/bits)
+	for _, p := range []string{"math/bits", "cmp", "slices", "maps", "sort"} {
+		if sp, ok := s.L.ByPath[p]; ok {
+			in.InterpPkgs[p] = true
+			if p == "math/bits" {
+				pkgs = append([]*ssa.Package{sp}, pkgs...)
+			}
+		}
+	}
 	in.SkipInit[Module+".init#1"] = true // host byte-order probe through unsafe; harnesses set nativeEndian
 	ConfigureStubs(in)
 	if err := in.InitPackages(pkgs); err != nil {
